@@ -201,6 +201,8 @@ func (r *RoundRobin) UpsertServer(u *url.URL, options ...ServerOption) error {
 	if s, _ := r.findServerByURL(u); s != nil {
 		for _, o := range options {
 			if err := o(s); err != nil {
+				// earlier options may already have changed the weight
+				r.resetState()
 				return err
 			}
 		}
